@@ -125,6 +125,10 @@ impl PPipe {
             }
             if s.inv {
                 items.push("inv".to_string());
+                // a flag is there or it is not: written twice it is still there
+                if r.chance(1, 6) {
+                    items.push("inv".to_string());
+                }
             }
             if s.omit_fwd {
                 items.push("omit_fwd".to_string());
@@ -188,7 +192,7 @@ pub fn random_pipe(r: &mut Rng, modelled_only: bool) -> PPipe {
     let n = if pipeline { r.below(5) } else { 1 };
     let mut globals = vec![];
     if pipeline {
-        match r.below(6) {
+        match r.below(7) {
             0 => globals.push(("ellps".to_string(), "intl".to_string())),
             1 => {
                 globals.push(("a".to_string(), "6378388".to_string()));
@@ -196,6 +200,8 @@ pub fn random_pipe(r: &mut Rng, modelled_only: bool) -> PPipe {
             }
             2 => globals.push(("k".to_string(), "0.9999".to_string())),
             3 => globals.push(("x".to_string(), "3".to_string())),
+            // parameters without a value (flags) are pipeline globals like any other
+            4 => globals.push((r.pick(&["exact", "south", "abridged"]).to_string(), String::new())),
             _ => {}
         }
     }
